@@ -416,8 +416,38 @@ func c08Run(c *engine.Ctx, cs c08Case) (string, string, string) {
 func init() { Registry["C08"] = runC08 }
 
 // c08Snap: API snapshot + delimiter listing + raw storage (left-over directories of a rejected upload count).
+// rawWithoutEmptyDirs is the raw storage dump without directories that hold no file: such a
+// directory is the prefix of no key, is listed nowhere and (since a8f9fcd) refuses no key its
+// name, so it is no part of the stored state a rejected upload must leave as it was.
+func rawWithoutEmptyDirs(w *drv.World) string {
+	lines := strings.Split(w.RawDump(), "\n")
+	var files []string
+	for _, l := range lines {
+		if i := strings.Index(l, " F \""); i >= 0 {
+			files = append(files, strings.SplitN(l[i+4:], "\"", 2)[0])
+		}
+	}
+	var keep []string
+	for _, l := range lines {
+		if i := strings.Index(l, " D \""); i >= 0 {
+			dir := strings.SplitN(l[i+4:], "\"", 2)[0]
+			holds := dir == "" || dir == "/" || dir == "."
+			for _, f := range files {
+				if strings.HasPrefix(f, strings.TrimSuffix(dir, "/")+"/") {
+					holds = true
+				}
+			}
+			if !holds {
+				continue // (an empty bucket's directory is in the API snapshot: the bucket is listed)
+			}
+		}
+		keep = append(keep, l)
+	}
+	return strings.Join(keep, "\n")
+}
+
 func c08Snap(w *drv.World) string {
-	s := w.Snapshot(drv.SnapOpts{Uploads: true})
+	s := w.Snapshot(drv.SnapOpts{Uploads: true, NoRaw: true}) + rawWithoutEmptyDirs(w)
 	lp := w.List("aaa", "delimiter=%2F")
 	return s + fmt.Sprintf("DELIM %d %v %v\n", lp.Status, lp.Prefixes, len(lp.Entries))
 }
@@ -470,7 +500,7 @@ func c08KeyLimits(c *engine.Ctx, kinds []drv.Kind) {
 				w.Do(drv.Req{Method: "DELETE", Path: "/aaa/warm-up", Query: drv.Q("uploadId", x.T("UploadId"))})
 			}
 		}
-		before := c08Snap(w) + w.RawDump()
+		before := c08Snap(w)
 		body := []byte("payload")
 		var r drv.Resp
 		switch cs.via {
@@ -510,7 +540,7 @@ func c08KeyLimits(c *engine.Ctx, kinds []drv.Kind) {
 				report("accepted", "a key of more than 1024 bytes was accepted with "+r.Short())
 				return
 			}
-			if after := c08Snap(w) + w.RawDump(); after != before {
+			if after := c08Snap(w); after != before {
 				report("state-changed", "the rejected upload ("+r.Short()+") changed the stored state")
 				return
 			}
@@ -519,7 +549,7 @@ func c08KeyLimits(c *engine.Ctx, kinds []drv.Kind) {
 		}
 		if r.Status >= 300 && strings.HasPrefix(cs.name, "new-dirs") {
 			// the backend may be unable to store it; then nothing may be left behind
-			if after := c08Snap(w) + w.RawDump(); after != before {
+			if after := c08Snap(w); after != before {
 				report("state-changed", "the refused upload ("+r.Short()+") changed the stored state:\nbefore:\n"+before+"\nafter:\n"+after)
 				return
 			}
